@@ -3,6 +3,7 @@ package checks
 import (
 	"bytes"
 	"fmt"
+	"sort"
 	"strings"
 
 	"verif/internal/adapt"
@@ -307,6 +308,42 @@ func c19Constructors(r *core.Run) {
 					bad("CertificateBuilder("+name+")~direct", "bytes", fmt.Sprintf("types %d/%d: builder gives %s (err %v), direct construction %s", s, c, core.Hex(got), err, core.Hex(want)), args)
 				}
 			}
+			// the same call history on the certificate obtained through every entry point - serialise, let the
+			// caller overwrite what it was handed, serialise again - must leave them in agreement
+			{
+				obs := map[string]string{}
+				add := func(name string, ct *certificate.Certificate, err error) {
+					if err == nil && ct != nil {
+						obs[name] = c19CertHistory(ct)
+					}
+				}
+				if p, err := certificate.BuildKeyTypePayload(s, c); err == nil {
+					ct, err := certificate.NewCertificateWithType(certificate.CERT_KEY, p)
+					add("NewCertificateWithType", ct, err)
+				}
+				for name, f := range seqs {
+					ct, err := f()
+					add("CertificateBuilder("+name+")", ct, err)
+				}
+				if ct, _, err := certificate.ReadCertificate(append(append([]byte(nil), want...), 0xEE, 0xEE, 0xEE)); err == nil {
+					add("ReadCertificate", ct, nil)
+				}
+				if kc, _, err := key_certificate.NewKeyCertificate(append(append([]byte(nil), want...), 0xEE, 0xEE, 0xEE)); err == nil && kc != nil {
+					add("NewKeyCertificate", &kc.Certificate, nil)
+				}
+				if kc, err := key_certificate.NewKeyCertificateWithTypes(s, c); err == nil && kc != nil {
+					add("NewKeyCertificateWithTypes", &kc.Certificate, nil)
+				}
+				ref, refName := "", ""
+				for _, name := range sortedStringKeys(obs) {
+					if ref == "" {
+						ref, refName = obs[name], name
+					} else if obs[name] != ref {
+						bad(refName+"~"+name, "after-identical-call-history", fmt.Sprintf("types %d/%d: after Bytes(), RawBytes(), the caller overwriting both results, and Bytes() again: %s observes %s, %s observes %s", s, c, refName, ref, name, obs[name]), args)
+						break
+					}
+				}
+			}
 			// typed constructor (known codes and experimental range only)
 			if kc, err := key_certificate.NewKeyCertificateWithTypes(s, c); err == nil {
 				r.Traces.Add(1)
@@ -467,4 +504,33 @@ func replayC19(r *core.Run, c core.Case) {
 	default:
 		c19Constructors(r)
 	}
+}
+
+// c19CertHistory applies one fixed call history to a certificate and renders what is observable afterwards.
+func c19CertHistory(ct *certificate.Certificate) (out string) {
+	defer func() {
+		if x := recover(); x != nil {
+			out = fmt.Sprint("panic: ", x)
+		}
+	}()
+	b1 := ct.Bytes()
+	r1 := ct.RawBytes()
+	for i := range b1 {
+		b1[i] ^= 0xA5
+	}
+	for i := range r1 {
+		r1[i] ^= 0xA5
+	}
+	t, _ := ct.Type()
+	l, _ := ct.Length()
+	return fmt.Sprintf("bytes=%x type=%d length=%d", ct.Bytes(), t, l)
+}
+
+func sortedStringKeys(m map[string]string) []string {
+	out := make([]string, 0, len(m))
+	for k := range m {
+		out = append(out, k)
+	}
+	sort.Strings(out)
+	return out
 }
